@@ -168,6 +168,8 @@ def validateInterfaceName(n):
             raise Exception('Name exceeds maximum length of 255')
         if n[0] == '.':
             raise Exception('Names may not begin with a "."')
+        if n[-1] == '.':
+            raise Exception('Names may not end with a "."')
         if n[0].isdigit():
             raise Exception('Names may not begin with a digit')
         if if_re.search(n):
